@@ -28,6 +28,11 @@ func (f *Float) Value() float64 {
 }
 
 func (f *Float) HashKey() HashKey {
+	if math.IsNaN(f.value) {
+		// NaN is not equal to itself: as part of a Go map key it could never
+		// be looked up again, and it has no place in a sorted order
+		return HashKey{Type: f.Type(), StrValue: "NaN"}
+	}
 	return HashKey{Type: f.Type(), FltValue: f.value}
 }
 
